@@ -502,3 +502,18 @@ impl serde::Serializer for OnlyStr {
         Err(Shape("serialize_struct_variant".into()))
     }
 }
+
+/// `a.clone_from(&b)` must leave `a` equal to `b` — in value and in every accessor `Debug` shows — whatever `a` held before
+/// (an overridden `clone_from` that reuses the old value's buffers may forget a field). Checked over all ordered pairs.
+pub fn clone_from_law<T: Clone + PartialEq + std::fmt::Debug>(l: &mut Law, what: &str, values: &[T]) {
+    for a in values {
+        for b in values {
+            let mut x = a.clone();
+            x.clone_from(b);
+            if !(x == *b && format!("{x:?}") == format!("{b:?}")) {
+                l.fail(&format!("{what}_clone_from_leaves_a_different_value"));
+                return;
+            }
+        }
+    }
+}
